@@ -323,3 +323,8 @@ mod tests {
         }
     }
 }
+
+// Verification hook (compiled only by `cargo kani`, which sets `--cfg kani`).
+#[cfg(kani)]
+#[path = "/verif/harness/taiko_gradual.rs"]
+pub(crate) mod verif_harness;
